@@ -8,7 +8,7 @@ harness/envunix/libc.h.  Shared by C02 (item f), C12 (item c) and C20 (item a).
 """
 from vp import Obl
 
-KIT = ["vp_nondet.c", "vp_mem.c", "vp_str.c", "vp_alloc.c"]
+KIT = ["vp_nondet.c", "vp_mem.c", "vp_str.c"]
 REAL = ["util/strutil.c"]
 
 # the CMake/autotools build on Linux defines both (check_symbol_exists); the
@@ -34,7 +34,7 @@ WFILE_UNWIND = {
 NAMETAG = {0: "log", 1: "manifest", 2: "manifest-cwd", 3: "manifest-root", 4: "table-in-manifestdir", 5: "manifest-dslash"}
 OPTAG = {1: "append", 2: "flush", 3: "sync", 4: "close-destroy", 5: "destroy"}
 OPDESC = {
-    1: "ONE ldb_wfile_append of a symbolic size 0..200000 from an arbitrary valid state (pos 0..65536): write(2) continues the accepted "
+    1: "ONE ldb_wfile_append of a symbolic size 0..140000 from an arbitrary valid state (pos 0..65536): write(2) continues the accepted "
        "image exactly (in order, gap-free, nothing twice), memcpy stays in the buffer and in the caller's slice, short writes/EINTR "
        "handled, a failed write(2) is returned as its errno with pos==0 and exact resynchronisation, a fitting append makes no system call",
     2: "ONE ldb_wfile_flush from an arbitrary valid state: hands buf[0,pos) to write(2) exactly once in order, pos==0 afterwards also "
@@ -59,7 +59,7 @@ def _wstep(prefix, op, name, fdatasync, appendmode=0, intrs=2, shorts=2, tier="q
                unwind=VP_UNWIND, unwindset=uw, timeout=timeout, tier=tier, functions=WFILE_FUNCS,
                desc="real create (%s) establishes the invariant; then %s" % (
                    "ldb_appendfile_create" if appendmode else "ldb_truncfile_create", OPDESC[op]),
-               bounds="inductive step: file name %r; state before the step arbitrary within the invariant (pos 0..65536, <=1000000 bytes "
+               bounds="inductive step: file name %r; state before the step arbitrary within the invariant (pos 0..65536, <=1000 bytes "
                       "accepted/lost before, an error may have been reported before); every libc call may fail with any errno; "
                       "<=%d EINTR and <=%d short writes in the step" % (NAMES[name], intrs, shorts))
 
